@@ -208,13 +208,7 @@ func runStop(c *core.Ctx, s *run.Session, l *hist.Layout, start hist.Pos, scn st
 		hs.BlockAt = spec.At
 		hs.InlineError = o.InlineError
 		rn := s.Start(hs, nil)
-		blocked := false
-		select {
-		case <-s.Blocked():
-			blocked = true
-		case <-rn.Done():
-		case <-time.After(maxWait):
-		}
+		blocked := s.WaitBlocked(rn, maxWait)
 		state := "unknown"
 		if blocked {
 			for i := 0; i < 400; i++ {
@@ -260,13 +254,7 @@ func runStop(c *core.Ctx, s *run.Session, l *hist.Layout, start hist.Pos, scn st
 		hs.BlockAt = spec.At
 		hs.InlineError = o.InlineError
 		rn := s.Start(hs, nil)
-		blocked := false
-		select {
-		case <-s.Blocked():
-			blocked = true
-		case <-rn.Done():
-		case <-time.After(maxWait):
-		}
+		blocked := s.WaitBlocked(rn, maxWait)
 		if blocked {
 			for i := 0; i < 4000; i++ {
 				conns := s.M.Conns()
@@ -312,13 +300,7 @@ func runStop(c *core.Ctx, s *run.Session, l *hist.Layout, start hist.Pos, scn st
 		hs.BlockAt = spec.At
 		hs.InlineError = o.InlineError
 		rn := s.Start(hs, nil)
-		blocked := false
-		select {
-		case <-s.Blocked():
-			blocked = true
-		case <-rn.Done():
-		case <-time.After(maxWait):
-		}
+		blocked := s.WaitBlocked(rn, maxWait)
 		if blocked {
 			// wait until the master has done its part
 			for i := 0; i < 4000; i++ {
